@@ -1,6 +1,7 @@
 package checks
 
 import (
+	"math"
 	"encoding/json"
 	"fmt"
 	"strconv"
@@ -171,7 +172,12 @@ func c07Run(c *lib.Ctx) {
 			qq := strconv.Quote(q)
 			for _, thr := range c07Thresholds {
 				for bits := 0; bits < 8; bits++ {
-					for _, lim := range []int{1, n + 3} {
+					lims := []int{1, n + 3}
+					if bits < 2 {
+						// "any limit": the fallback must answer the same for limits near the int range
+						lims = append(lims, math.MaxInt, math.MaxInt/2+1)
+					}
+					for _, lim := range lims {
 						o := Opts{Limit: lim, FuzzyThreshold: thr, UseNLP: bits&1 != 0, AllPlatforms: bits&2 != 0, PipelineOnly: bits&4 != 0}
 						host := "linux"
 						if bits&2 == 0 && idx%3 == 1 {
